@@ -544,6 +544,15 @@ def run(chk):
             jobs.append(("push", [arr, v]))
         for d in ("", ", ", Char("-"), "é", 1, None):
             jobs.append(("join", [arr, d]))
+    # join: elements equal to the delimiter at the edges and everywhere, delimiters of repeated / several characters
+    for chars_ in (["a", "-"], ["-", "a"], ["-"], ["-", "-", "-"], ["a", "-", "-"], ["1", "0", "0"], ["/"], ["a", "b", "a"], ["é", "é"], [], ["x"], [",", " "], [" ", ","]):
+        for d in ("-", Char("-"), "0", "/", "--", "a", "ab", "é", ", ", " ", "", Char("a"), ",", "x", "-a-"):
+            jobs.append(("join", [Arr([Char(c) for c in chars_]), d]))
+    for _ in range(60 if quick else 1500):
+        alpha = rng.choice(["ab", "-x", "0", "aé", ",; "])
+        arr = [Char(rng.choice(alpha)) for _ in range(rng.randint(0, 6))]
+        d = "".join(rng.choice(alpha) for _ in range(rng.randint(0, 3)))
+        jobs.append(("join", [Arr(arr), d if rng.random() < 0.7 or len(d) != 1 else Char(d)]))
     for m in maps:
         for k in (1, 1.0, "b", "zz", None, Arr([1]), True):
             jobs.append(("get", [m, k]))
